@@ -19,7 +19,9 @@ PROPS = ["C05/Props.v"]
 DRIVER = "c05_driver.py"
 CLAUSE = {1: "outcome-class", 2: "contents", 3: "failing-op-effect", 4: "several-events", 5: "missing-event",
           6: "replay-law", 7: "index-normal-form", 8: "removed-not-selected", 9: "return-value",
-          10: "copy-shares-notifiers-or-state", 11: "copy-contents"}
+          10: "copy-shares-notifiers-or-state", 11: "copy-contents", 20: "reaction-presence"}
+CLAUSE.update({20 + k: "reaction-" + v for k, v in list(CLAUSE.items()) if k < 10})
+REACT_T = "C05.Corr.rcase"
 COPY_T = "C05.Corr.ccase"
 COPYK = {"copy": "CopyCopy", "deep": "CopyDeep", "pickle": "CopyPickle"}
 M61 = 2305843009213693951
@@ -57,7 +59,7 @@ def op_term(op, prev=None):
         return C(k, op[1])
     if k == "SetSliceN":
         return C(k, sl_term(op[1]))
-    if k == "ExtendN":
+    if k in ("ExtendN", "SortPos"):
         return C(k)
     if k == "Pop":
         return C(k, opt(op[1]))
@@ -230,7 +232,7 @@ def gen_items(rnd, vk, n, cur):
             if rnd.random() < 0.5:
                 items[j] = 100 + rnd.randint(0, 9)       # the string "d": CInt converts, Int rejects
     if n and 0.25 <= r < 0.45:
-        items[rnd.randrange(n)] = rnd.choice([200, 201, 200, 105])
+        items[rnd.randrange(n)] = rnd.choice([200, 201, 200, 105, 202])      # 202: traits.api.Undefined
     if n and cur and 0.45 <= r < 0.6:
         items[rnd.randrange(n)] = rnd.choice(cur)         # an item already present
     if n and vk == "VAll" and 0.68 <= r < 0.74:
@@ -318,6 +320,8 @@ def gen_op(rnd, vk, cur, allow_self=False):
             return [k, 100 + x if 0 <= x < 100 else x]     # the string form of a present int: must not match
         return [k, rnd.choice([0, 3, 9, 11, 105, 200])]
     if k == "Sort":
+        if rnd.random() < 0.12:     # key / reverse given positionally: TypeError, as for the built-in list
+            return ["SortPos", rnd.choice(["none-true", "len", "none"])]
         return [k, rnd.random() < 0.4, rnd.choice([0, 0, 2, 3, 5])]
     return [k]
 
@@ -373,6 +377,7 @@ def corpus():
             ["SetSlice", [0, 0, None], []], ["Sort", False], ["Sort", False], ["Sort", True, 3], ["Sort", False, 2], ["Reverse"],
             ["SetInt", -1, 104], ["SetInt", 7, 200], ["SetInt", 7, 1], ["Pop", -9], ["Pop", None],
             ["SetSliceN", [1, 3, None], "none"], ["SetSliceN", [None, None, None], "zero"], ["ExtendN", "false"],
+            ["SortPos", "none-true"], ["SortPos", "len"], ["Append", 202], ["SetInt", 0, 202],
             ["Insert", -100, 3], ["Insert", 100, 103], ["InsertX", 0, 3], ["PopX", 0], ["ImulX", 2], ["ImulX", 0], ["PopX", 99], ["Imul", 2], ["Imul", 0], ["Imul", 3], ["Clear"], ["Clear"],
             ["Remove", 3], ["Append", 3], ["Remove", 103], ["Remove", 3],
             ["Extend", [1, 2]], ["Extend", None, "self"], ["Iadd", None, "self"], ["SetSlice", [1, 2, None], None, "self"],
@@ -430,7 +435,7 @@ def grid_ops(b):
                 ["Insert", i, 200], ["Pop", i], ["Imul", i], ["Remove", 10 + i], ["InsertX", i, 99], ["PopX", i],
                 ["ImulX", i]]
     ops += [["Pop", None], ["Append", 5], ["Append", 105], ["Append", 200], ["Extend", [5, 6]], ["Extend", []],
-            ["Extend", [5, 200]], ["Iadd", [5, 106]], ["Iadd", []], ["ExtendN", "none"],
+            ["Extend", [5, 200]], ["Iadd", [5, 106]], ["Iadd", []], ["SortPos", "none-true"], ["ExtendN", "none"],
             ["SetSliceN", [None, None, None], "none"], ["SetSliceN", [1, 3, None], "zero"],
             ["SetSliceN", [None, None, 2], "false"], ["SetSliceN", [None, None, 0], "none"], ["ImulQ", 1, 2, "float"], ["ImulQ", 5, 2, "float"],
             ["ImulQ", 2, 1, "float"], ["ImulQ", -1, 2, "float"], ["Clear"], ["Reverse"], ["Sort", False, 0],
@@ -697,6 +702,29 @@ def gen_copy_case(rnd, ctx, maxops):
 COPY_HEADER = HEADER + "\nDefinition corr_codes := corr_copy.\nDefinition law_codes := law_copy."
 
 
+# ---------------------------------------------------------------- re-entrant notifiers
+def react_term(case, obs):
+    h, prev = [], list(case["init"])
+    for op, o in zip(case["ops"], obs):
+        r = o.get("react")
+        h.append((op_term(op, prev), obs_term(o), opt(obs_term(r) if r else None)))
+        prev = list((r or o)["after"])
+    return (target_term(case), C(case["vk"]), case["react"], list(case["init"]), h)
+
+
+def gen_react_case(rnd, ctx, maxops):
+    target = rnd.choice(["plain", "plain", "obj"])
+    base = gen_case(rnd, ctx, maxops, 6, target=target)
+    base.pop("channel", None)
+    base.pop("falsy", None)
+    base["react"] = rnd.choice([0, 1, 2, 3, 4])
+    ctx.count("react:%s/K%d" % (target, base["react"]))
+    return base
+
+
+REACT_HEADER = HEADER + "\nDefinition corr_codes := corr_react.\nDefinition law_codes := law_react."
+
+
 # ---------------------------------------------------------------- run
 def hist_args():
     return dict(to_term=to_term, header=HEADER, case_type=CASE_T, key_fn=key_fn, describe=describe,
@@ -778,6 +806,14 @@ def run(ctx):
         ccases += [gen_copy_case(rnd, ctx, 8) for _ in range(120 if ctx.tier == "quick" else 3000)]
         hist.run(ctx, DRIVER, ccases, copy_term, COPY_HEADER, COPY_T, key_fn, describe, nontrivial,
                  relation="C05.Corr.corr_copy (copy / deepcopy / pickle, then the history on the copy)", tag="copies",
+                 do_shrink=False)
+        rcases = [dict(vk=vk, target=tgt, react=2, init=[1, 2], ops=[
+            ["Append", 3], ["Append", 104], ["Extend", [5, 6]], ["Insert", 0, 7], ["SetInt", 0, 8], ["Pop", None],
+            ["Append", 200], ["Reverse"], ["Clear"], ["Append", 1], ["Extend", [2, 3, 4]]])
+            for vk in ("VAll", "VCInt") for tgt in ("plain", "obj")]
+        rcases += [gen_react_case(rnd, ctx, 8) for _ in range(100 if ctx.tier == "quick" else 3000)]
+        hist.run(ctx, DRIVER, rcases, react_term, REACT_HEADER, REACT_T, key_fn, describe, nontrivial,
+                 relation="C05.Corr.corr_react (a notifier that pops from the list it is notified about)", tag="react",
                  do_shrink=False)
         if ctx.tier == "quick":
             # a slice of the grid: index bound 3, lengths 0..4, one validator per length drawn from the seed
